@@ -163,6 +163,8 @@ def run(ctx):
     ctx.cov['trusted_base'] = ['Coq 8.16.1 kernel (coqc), vm_compute', 'extraction of Model/Optimize.v, Model/CheckBranches.v, M6502/Sem.v',
                                'harness ccv (generation loop copied from src/tests/build.rs, Debug-dump parser)',
                                'M6502/Isa.v, M6502/Sem.v as a transcription of the 6502 datasheet', 'layout used for co-execution (tools/lib/coexec.py)']
-    ctx.assumptions = ['structural theorems are proved for all line lists; the global semantic simulation (optimize_sound) is not proved: '
-                       'the semantic theorems are per-instruction and per-rule (C02sem) and N/Z liveness at removed flag setters is only co-executed',
+    ctx.assumptions = ['structural theorems are proved for all line lists; the global semantic simulation is proved for STRAIGHT-LINE code '
+                       '(C02_optimize_straight_sound / _run: no labels, branches, calls or stack operations; operands immediate, symbol, symbol+k, indexed '
+                       'with an absolute ,Y base; the executions of the original and the optimised list end in equal states, N and Z included); '
+                       'across labels, branches and calls the theorems are per-instruction and per-rule (C02sem) and behaviour is co-executed',
                        'inline assembly has no modelled meaning beyond "nop"; that it is a barrier is C02_noninstr_fixed + the exact correspondence']
